@@ -403,6 +403,10 @@ func (ps *pathState) violate(label, site, msg string, m map[int]uint64) {
 		m = map[int]uint64{}
 	}
 	v.Inputs = ps.concreteInputs(m)
+	memo := map[int]uint64{}
+	for _, o := range ps.obs {
+		v.Observed = append(v.Observed, o.label+"="+dumpValue(o.v, o.t, m, memo, 0))
+	}
 	ps.viols = append(ps.viols, v)
 }
 
